@@ -173,16 +173,16 @@ def r3_activation(ctx):
             okact = was_active or was_inactive
             if okact and first and second:
                 if was_active:
-                    okact = a1 == TRUE and a2 == TRUE
+                    okact = ip.entails(it.state, AND(a1, a2))
                     cases.add('active-splitter-gives-two-active')
                 else:
-                    okact = (a1 == TRUE) != (a2 == TRUE) or (a1 == TRUE and a2 == TRUE)
+                    okact = ip.entails(it.state, OR(a1, a2))
                     cases.add('inactive-splitter-gives-at-least-one-active')
             elif okact and (first or second):
                 # only one non-empty class: it must stay active if the old splitter was
                 only = a1 if first else a2
                 if was_active:
-                    okact = only == TRUE
+                    okact = ip.entails(it.state, only)
             ctx.obligation(okact)
             (ctx.ok if okact else ctx.violation)('C04.R3', 'C04.R3/upate_splitters/activation-safe', fn.path, fn.site(),
                                                 {'old_active': was_active, 'active1': T.show(a1) if a1 else None, 'active2': T.show(a2) if a2 else None}, cfg)
@@ -863,11 +863,11 @@ def r7_splitter_store(ctx):
             return T.typed(('call', SL + 'has_active_items', (('elem', lst, ix),)), 'bool')
         okit = len(log.iterations) >= 1
         for it in log.iterations:
-            pos = [hv for hv, ev in it.mapping if T.TYPES.get(hv) == 'usize']
-            okit = okit and len(pos) == 1 and ip.entails(it.state, NOT(hai(pos[0]))) and ip.entails(it.state, eq(it.cur.get(pos[0], pos[0]), T.mk_add(pos[0], I(1))))
             # the scan covers the whole table: it starts at position 0 of self.list (an active splitter of a block with a
-            # smaller id than the current one must still be found)
-            okit = okit and [ev for hv, ev in it.mapping if hv == pos[0]] == [I(0)]
+            # smaller id than the current one must still be found), moves one list at a time and continues only past
+            # a list without active items.  The position is any head variable counting up from 0 (iterator position,
+            # index variable, counter of `position`).
+            okit = okit and any(ip.entails(it.state, NOT(hai(p))) for p, _ in counters(ip, it, I(0)))
         ctx.obligation(okit)
         (ctx.ok if okit else ctx.violation)('C04.R7', 'C04.R7/has_active_splitter/scan-continues-only-past-lists-without-active-items', fn.path, fn.site(), None, cfg)
         kinds = set()
@@ -881,8 +881,7 @@ def r7_splitter_store(ctx):
                 kinds.add('true')
                 role = 'true-only-with-active_block-at-a-list-with-active-items'
             elif o.value == FALSE:
-                poss = [t for f in o.state.pc for t in T.subterms(f) if t[0] == 'var' and 'iter.pos' in t[1]]
-                ok = not ws and bool(poss) and ip.entails(o.state, le(T.typed(('len', lst), 'usize'), poss[0]))
+                ok = not ws and loop_exhausted(ip, o.state) and any(ip.entails(o.state, le(T.typed(('len', lst), 'usize'), p)) for p in head_vars(o.state) if T.TYPES.get(p) == 'usize')
                 kinds.add('false')
                 role = 'false-only-after-the-whole-table-was-scanned'
             else:
